@@ -222,8 +222,7 @@ class GuardAnalysis:
           return True
     return False
 
-  def pre_guard_region(self, func: Func, recvs=('self',)):
-    g = C.cfg_of(func.node)
+  def _guard_edges(self, g, recvs):
     gts = self.guard_tests(g, recvs)
     blocked = set()
     for n, lab in gts:
@@ -239,7 +238,64 @@ class GuardAnalysis:
             for m, l in n.succ:
               if l == lab:
                 blocked.add((n.id, m.id, l))
-    seen, parent = g.reach(g.entry, blocked_edges=blocked, follow_exc=False)
+    return gts, blocked
+
+  def _is_guard_helper(self, callee: Func, recvs, _depth=0) -> bool:
+    """Does `callee` return normally only after a guard on `recvs` passed?
+    (a helper that raises exactly where the inlined guard would raise)"""
+    if _depth > 2:
+      return False
+    g = C.cfg_of(callee.node)
+    gts, blocked = self._guard_edges(g, recvs)
+    if not gts:
+      return False
+    seen, _ = g.reach(g.entry, blocked_edges=blocked, follow_exc=False)
+    return g.exit.id not in seen
+
+  def _guard_helper_calls(self, func: Func, g, recvs, dyn_cls=None):
+    """CFG nodes of func that call a guard helper for one of the receivers."""
+    out = set()
+    cls = self.idx.enclosing_class(func)
+    for n in g.nodes:
+      if n.ast is None:
+        continue
+      for call in n.calls():
+        d = A.call_name(call)
+        if not d:
+          continue
+        callee = None
+        callee_recvs = None
+        parts = d.split('.')
+        if parts[0] == 'self' and len(parts) == 2 and (dyn_cls or cls is not None):
+          callee = self.idx.lookup_method(dyn_cls or cls.fq, parts[1])
+          offset = 1
+        else:
+          r = self.idx.resolve_name_in_func(func, d, call)
+          callee = self.idx.find_func(r) if r else None
+          offset = 0
+        if callee is None or callee is func:
+          continue
+        names = []
+        if parts[0] == 'self' and 'self' in recvs:
+          names.append('self')
+        ps = A.param_names(callee.node)
+        for i, a in enumerate(call.args):
+          if (A.dotted(a) or '') in recvs and i + offset < len(ps):
+            names.append(ps[i + offset])
+        for kw in call.keywords:
+          if kw.arg and (A.dotted(kw.value) or '') in recvs:
+            names.append(kw.arg)
+        if names and self._is_guard_helper(callee, tuple(names)):
+          out.add(n.id)
+          self.guards_seen.add((callee.fq, callee.node.lineno))
+    return out
+
+  def pre_guard_region(self, func: Func, recvs=('self',), dyn_cls=None):
+    g = C.cfg_of(func.node)
+    gts, blocked = self._guard_edges(g, recvs)
+    helpers = self._guard_helper_calls(func, g, recvs, dyn_cls)
+    seen, parent = g.reach(g.entry, blocked_nodes=helpers, blocked_edges=blocked,
+                           follow_exc=False)
     for n, _ in gts:
       self.guards_seen.add((func.fq, n.lineno))
     return g, seen, parent
@@ -261,7 +317,7 @@ class GuardAnalysis:
     def region(recv):
       recvs = self.recv_alias.get(recv, (recv,))
       if recvs not in regions:
-        regions[recvs] = self.pre_guard_region(func, recvs)
+        regions[recvs] = self.pre_guard_region(func, recvs, dyn_cls)
       return regions[recvs]
 
     g, seen_self, parent_self = region('self')
@@ -286,3 +342,40 @@ class GuardAnalysis:
           out.append(([func.fq] + chain, desc, loc,
                       g.witness_str(parent_self, n) + ['->'] + wit))
     return out
+
+
+def helper_closure(idx: Index, func: Func, depth: int = 1) -> List[Func]:
+  """func plus the private helpers it calls directly (`self._x(...)`, nested
+  defs, module-level `_x(...)`), so that a guard or step moved into a small
+  helper at the same place is still seen."""
+  out = [func]
+  seen = {func.fq}
+  frontier = [func]
+  for _ in range(depth):
+    nxt = []
+    for f in frontier:
+      cls = idx.enclosing_class(f)
+      for call in A.calls_in(f.node):
+        d = A.call_name(call)
+        if not d:
+          continue
+        parts = d.split('.')
+        callee = None
+        if parts[0] == 'self' and len(parts) == 2 and cls is not None:
+          callee = idx.lookup_method(cls.fq, parts[1])
+        elif len(parts) == 1:
+          r = idx.resolve_name_in_func(f, d, call)
+          callee = idx.find_func(r) if r else None
+        if callee is None or callee.fq in seen:
+          continue
+        if not callee.name.startswith('_') and '<locals>' not in callee.qualname:
+          continue
+        seen.add(callee.fq)
+        out.append(callee)
+        nxt.append(callee)
+    frontier = nxt
+  return out
+
+
+def closure_text(idx: Index, func: Func, limit: int = 40000) -> str:
+  return '\n'.join(A.unparse(f.node, limit) for f in helper_closure(idx, func))
